@@ -324,7 +324,7 @@ pub fn check_udp(prop: &str, plan: &Plan, up: &UdpPlan, run: &UdpRun) -> Vec<Vio
                 continue;
             }
             let n = delivered.get(&(ai, *t, *seq)).copied().unwrap_or(0);
-            let oversize = *size > 65507 - 600;
+            let oversize = *size > must_carry(plan.config.proto);
             if n == 0 && up.loss_pm == 0 && !oversize {
                 v.push(Violation::new(prop, sig("datagram-lost"), format!("datagram app {ai} -> target {t} seq {seq} ({size} bytes) never reached the target")));
             }
@@ -392,7 +392,7 @@ pub fn check_udp(prop: &str, plan: &Plan, up: &UdpPlan, run: &UdpRun) -> Vec<Vio
                     continue;
                 }
                 // a reply larger than the path can carry may be dropped (whole); VMess carries one 2 KiB chunk per datagram
-                let too_big = (plan.config.proto == Proto::Vmess && up.targets[*t].reply_size > 1900) || up.targets[*t].reply_size > 65000;
+                let too_big = (plan.config.proto == Proto::Vmess && up.targets[*t].reply_size > must_carry(Proto::Vmess)) || up.targets[*t].reply_size > 65000;
                 if too_big {
                     continue;
                 }
@@ -408,13 +408,29 @@ pub fn check_udp(prop: &str, plan: &Plan, up: &UdpPlan, run: &UdpRun) -> Vec<Vio
     v
 }
 
+/// The largest payload every path of this protocol must carry; anything larger may be dropped (whole), never cut.
+/// VMess carries one datagram per 2 KiB body chunk and reserves room for the tag, the size field and up to 63 bytes of
+/// padding; Shadowsocks and Trojan are bounded by the 65507-byte datagram / 16-bit length minus their own overhead.
+pub fn must_carry(proto: Proto) -> usize {
+    match proto {
+        Proto::Shadowsocks => 65507 - 600,
+        Proto::Vmess => 2048 - 16 - 2 - 64 - 16,
+        Proto::Trojan => 65507 - 600,
+    }
+}
+
 pub fn gen_udp_plan(g: &mut Gen, thorough: bool, max_payload: usize) -> UdpPlan {
+    gen_udp_plan_for(g, thorough, max_payload, None)
+}
+
+/// `edge`: the protocol's capacity edge; a share of the datagrams is placed right around it (whole-or-nothing zone)
+pub fn gen_udp_plan_for(g: &mut Gen, thorough: bool, max_payload: usize, edge: Option<usize>) -> UdpPlan {
     let n_targets = g.range(1, 4) as usize;
     let n_apps = g.range(1, 4) as usize;
     let mut targets = Vec::new();
     for t in 0..n_targets {
         let name = if g.chance(40) { Some(format!("u{t}-{}.udp.test", g.range(0, 999))) } else { None };
-        targets.push(UdpTarget { ip: [127, 0, 9, 1 + t as u8], port: g.range(1024, 39_999) as u16, name, replies: *g.pick(&[0usize, 1, 1, 1, 2]), reply_size: *g.pick(&[9usize, 16, 100, 1200, 1472, 4000]) });
+        targets.push(UdpTarget { ip: [127, 0, 9, 1 + t as u8], port: g.range(1024, 39_999) as u16, name, replies: *g.pick(&[0usize, 1, 1, 1, 2]), reply_size: match edge { Some(e) if g.chance(30) => (e + 70).saturating_sub(g.range(0, 90) as usize), _ => *g.pick(&[9usize, 16, 100, 1200, 1472, 4000]) } });
     }
     let mut apps = Vec::new();
     for _ in 0..n_apps {
@@ -430,7 +446,10 @@ pub fn gen_udp_plan(g: &mut Gen, thorough: bool, max_payload: usize) -> UdpPlan 
                     2 => *g.pick(&[1472usize, 1473, 1500, 2048, 4096]),
                     3 => g.range(9, 1500) as usize,
                     4 => g.range(1500, 20_000) as usize,
-                    5 => max_payload.saturating_sub(g.range(0, 3) as usize),
+                    5 => match edge {
+                        Some(e) if g.chance(70) => (e + 80).saturating_sub(g.range(0, 100) as usize),
+                        _ => max_payload.saturating_sub(g.range(0, 3) as usize),
+                    },
                     _ => g.range(9, 300) as usize,
                 };
                 ops.push(UdpOp::Send { t: g.below(n_targets as u64) as usize, size: size.min(max_payload) });
@@ -470,10 +489,12 @@ pub fn gen_c02(seed: u64, thorough: bool) -> Plan {
     // the largest payload the path can carry: 65507 minus the protocol's own overhead (generous margin), or 64 KiB - 1 in a stream chunk
     let max_payload = match proto {
         Proto::Shadowsocks => 65507 - 16 - 16 - 1 - 8 - 8 - 2 - 300 - 24,
-        Proto::Vmess => 2048 - 16 - 2 - 64 - 16,
+        // up to and beyond the chunk capacity: sizes above `must_carry` may be dropped whole, never cut
+        Proto::Vmess => 2100,
         Proto::Trojan => 65535,
     };
-    let mut up = gen_udp_plan(&mut g, thorough, max_payload);
+    let edge = if proto == Proto::Vmess { Some(must_carry(proto)) } else { None };
+    let mut up = gen_udp_plan_for(&mut g, thorough, max_payload, edge);
     if proto == Proto::Shadowsocks && g.chance(35) {
         up.loss_pm = *g.pick(&[0, 100, 300]);
         up.dup_pm = *g.pick(&[0, 200, 500]);
